@@ -25,7 +25,9 @@ def pipeline_dict(case):
 def K_of(case):
     on = bool(case["sw"])
     return dict(prec=["not", "and", "or"], paren=False, sep=1, orin=False, andin=False, inwild=False, sw=on, ew=on, ct=on, wm=False,
-                cs="full", nexists=True, cidr=False, noteq=False, allowspecial=False)
+                cs="full", nexists=True, cidr=False, noteq=False, allowspecial=False,
+                # every other case (scrambled) on a target that takes regular expressions verbatim
+                reverb=(case["id"] * 2654435761 >> 9) % 2 == 1)
 
 
 def drive_case(case):
